@@ -495,7 +495,7 @@ func (x *c19ctx) c19R1(settings []*types.Var) {
 			}
 		}
 	}
-	c.Floor("C19.R1:accesses", n, 40)
+	c.Floor("C19.R1:accesses", n, 12)
 }
 
 // ---- R2 ownership of the sockets, R6 receive loops / who may close
